@@ -113,7 +113,7 @@ def run(ck):
                       "a PRNG sample of them into a dirty value and under small ColferSizeMax; encode cases: key/val lengths "
                       "in %s x repeated/random content plus random short pairs; for each observed encoding: decode it, decode it "
                       "truncated at cut points, with appended suffixes and with single-byte mutations; size-limit boundary with "
-                      "ColferSizeMax in {16,64}; wrapped varints. A case is non-trivial if it is not the empty input; distinct by md5 of "
+                      "ColferSizeMax in {16,64}; a systematic varint sweep for both fields (length prefixes around 2^31, 2^32, 2^63, 2^64, over-long and wrapped encodings, 8..12 continuation bytes). A case is non-trivial if it is not the empty input; distinct by md5 of "
                       "the canonical case line." % (ALPHA, LENS))
     proofs_ok = ck.proofs(["theories/KVCodecRun.vo"])
     binp = ck.go_test_bin("kv", ["kv/zz_verif_codec_test.go"])
@@ -166,6 +166,22 @@ def run(ck):
                  b"\x00\x82" + b"\x80" * 12 + b"\x00" + b"xy\x7f", b"\x01" + b"\xff" * 20, b"\x00\xff\xff\xff\x7f",
                  b"\x00\x80\x80\x80\x08" + b"z" * 10, b"\x00\x81\x80\x80\x80\x80\x80\x80\x80\x80\x02k\x7f"]:
         dec_cases.append((None, body, b"", b"", "varint"))
+    # systematic varint sweep, for BOTH fields (the Key and Val decoders are separate copies of the loop): lengths around every
+    # power of two that matters to uint/int conversions and to the shift (2^31, 2^32, 2^56, 2^62, 2^63, 2^64 and wrap-around),
+    # canonical and over-long encodings, continuation runs of 8..12 bytes ending in 00/01/02/40/7f, with and without payload
+    specials = [0, 1, 127, 128, 129, 255, 16383, 16384, 2 ** 21 - 1, 2 ** 21, 2 ** 24, 2 ** 24 + 1, 2 ** 31 - 1, 2 ** 31, 2 ** 32 - 1, 2 ** 32,
+                2 ** 32 + 5, 2 ** 56, 2 ** 62, 2 ** 63 - 1, 2 ** 63, 2 ** 63 + 1, 2 ** 63 + 2 ** 62, 2 ** 64 - 1, 2 ** 64, 2 ** 64 + 1, 2 ** 64 + 3,
+                2 ** 65 + 2, 2 ** 70 + 1, 2 ** 63 + 16, 2 ** 64 - 16]
+    vbodies = [varint(n) for n in specials]
+    for nb in range(8, 13):
+        for cont in (0x80, 0xff, 0x81):
+            for last in (0x00, 0x01, 0x02, 0x40, 0x7f):
+                vbodies.append(bytes([cont] * nb + [last]))
+    for vb in vbodies:
+        for hdr in (b"\x00", b"\x01", b"\x00\x01k\x01"):
+            for pay in (b"", b"\x7f", b"ab\x7f", b"z" * 20 + b"\x7f"):
+                dec_cases.append((None, hdr + vb + pay, b"", b"", "varint"))
+            dec_cases.append((16, hdr + vb + b"abc\x7f", b"k0", b"v0", "varint"))
     rt = []  # (index into dec_cases, sm, k, v, data, kind)
     for (sm, k, v), l in zip(enc_cases, eres):
         f = l.split()
